@@ -271,7 +271,113 @@ pub fn run_case(cap: usize, g0: usize, progs: &[Vec<Cmd>], rng: &mut Rng, sch: S
     if res.panicked.iter().any(|&p| p) {
         monitor.push("PROPFAIL C13 a model thread panicked".to_string());
     }
+    monitor.extend(monitors(nt, &sched_of(&res.trace), &steps));
     drop(handles);
     drop(h0);
     (case_line("ebr", &encode(cap, g0, progs), &sched_of(&res.trace), &steps), monitor)
+}
+
+/// Model-independent oracles on the recorded trace.
+/// C14: every value of the global epoch observed is >= the previous one and moves by single steps;
+///      while a thread is inside a critical section (its pin validated at epoch a, outermost guard
+///      not yet being dropped) every observed global epoch is a or a+1.
+/// C13: a deferred function (identified by its id) does not run while a critical section that was
+///      active when the defer completed is still active.
+fn monitors(nt: usize, sched: &[usize], steps: &[Vec<(u32, i64, i64)>]) -> Vec<String> {
+    let mut out = vec![];
+    let mut depth = vec![0i64; nt]; // top-level guards held (user level)
+    let mut in_cs = vec![false; nt];
+    let mut serial = vec![0u64; nt];
+    let mut ann = vec![0i64; nt]; // epoch value the current critical section was validated at
+    let mut last_read = vec![0i64; nt]; // last 1210 value (2g+1) read by the thread's pin loop
+    let mut g_seen: i64 = -1;
+    let mut cur_op = vec![(9i64, 0i64); nt];
+    let mut wit: HashMap<i64, Vec<(usize, u64)>> = HashMap::new();
+    let mut in_closure = vec![0usize; nt]; // > 0 while a closure body is running on the thread
+    let see_g = |g: i64, g_seen: &mut i64, in_cs: &Vec<bool>, ann: &Vec<i64>, out: &mut Vec<String>, k: usize| {
+        if *g_seen >= 0 && (g < *g_seen || g > *g_seen + 1) {
+            out.push(format!("PROPFAIL C14 step {}: global epoch observed {} after {}", k, g, *g_seen));
+        }
+        if g > *g_seen {
+            *g_seen = g;
+        }
+        for t in 0..in_cs.len() {
+            if in_cs[t] && !(g == ann[t] || g == ann[t] + 1) {
+                out.push(format!("PROPFAIL C14 step {}: thread {} is pinned at epoch {} but the global epoch is {}", k, t, ann[t], g));
+            }
+        }
+    };
+    for (k, st) in steps.iter().enumerate() {
+        let t = sched[k];
+        if t >= nt {
+            continue;
+        }
+        for &(site, a, _b) in st {
+            match site {
+                1 => {
+                    cur_op[t] = (a, _b);
+                    in_closure[t] = 0;
+                    // unpin / reactivate of the only guard: the critical section ends here
+                    if (a == 1 || a == 4) && depth[t] == 1 {
+                        in_cs[t] = false;
+                    }
+                }
+                1210 => {
+                    last_read[t] = a;
+                    see_g((a - 1) / 2, &mut g_seen, &in_cs, &ann, &mut out, k);
+                }
+                1216 => see_g((a - 1) / 2, &mut g_seen, &in_cs, &ann, &mut out, k),
+                1218 | 1221 => see_g(a / 2, &mut g_seen, &in_cs, &ann, &mut out, k),
+                20 => see_g(a / 2, &mut g_seen, &in_cs, &ann, &mut out, k),
+                2010 => {
+                    in_closure[t] += 1;
+                    if let Some(ws) = wit.get(&a) {
+                        for &(q, n) in ws {
+                            if in_cs[q] && serial[q] == n {
+                                out.push(format!(
+                                    "PROPFAIL C13 step {}: deferred function {} runs on thread {} while critical section {} of thread {} (active at its deferral) is still active",
+                                    k, a, t, n, q
+                                ));
+                            }
+                        }
+                    }
+                }
+                2011 => {
+                    // a defer issued from a closure body completes within the closure; record its witnesses now
+                    if a == 3 {
+                        let ws: Vec<(usize, u64)> = (0..nt).filter(|&q| in_cs[q]).map(|q| (q, serial[q])).collect();
+                        wit.insert(_b, ws);
+                    }
+                }
+                2000 => {
+                    let (op, arg) = cur_op[t];
+                    match op {
+                        0 => {
+                            depth[t] += 1;
+                            if depth[t] == 1 {
+                                in_cs[t] = true;
+                                serial[t] += 1;
+                                ann[t] = (last_read[t] - 1) / 2;
+                            }
+                        }
+                        1 => depth[t] -= 1,
+                        4 => {
+                            if depth[t] == 1 {
+                                in_cs[t] = true;
+                                serial[t] += 1;
+                                ann[t] = (last_read[t] - 1) / 2;
+                            }
+                        }
+                        3 => {
+                            let ws: Vec<(usize, u64)> = (0..nt).filter(|&q| in_cs[q]).map(|q| (q, serial[q])).collect();
+                            wit.insert(arg, ws);
+                        }
+                        _ => {}
+                    }
+                }
+                _ => {}
+            }
+        }
+    }
+    out
 }
